@@ -513,7 +513,9 @@ class FrameAudit(Lemma):
                         if isinstance(n, ast.Attribute) and isinstance(n.ctx, ast.Store) and n.attr in ("_finished", "_completed", "_parent", "_nested"):
                             writes.append((cls.name, fn.name, n.attr))
         st = it.st
-        st.check("frame:_finish-is-only-called-by-MetricsContext.__exit__", z3.BoolVal(calls["_finish"] == ["MetricsContext.__exit__"]),
+        # ... and by the rollback of a scope that failed to enter (its MetricsContext is then never entered, hence never exited)
+        st.check("frame:_finish-is-only-called-by-MetricsContext.__exit__", z3.BoolVal(
+            sorted(calls["_finish"]) in (["MetricsContext.__exit__"], ["MetricsContext.__exit__", "ScopeContext.__aenter__"])),
                  kind="frame", note=str(calls["_finish"]))
         st.check("frame:_complete_if_able-is-only-called-by-_finish-and-itself",
                  z3.BoolVal(sorted(calls["_complete_if_able"]) == ["ScopeMetrics._complete_if_able", "ScopeMetrics._finish"]),
